@@ -31,7 +31,7 @@ func alphabet(thorough bool) []hwd.Op {
 		add(0, hwd.TLm, hwd.KApplyA, hwd.KCancel)
 		add(0, hwd.TG, hwd.KApplyO, hwd.KReturn, hwd.KCancel)
 		add(1, hwd.TF0, hwd.KApplyA, hwd.KReturn, hwd.KCancel)
-		add(1, hwd.TF1, hwd.KApplyA, hwd.KCancel)
+		add(1, hwd.TF1, hwd.KApplyA, hwd.KApplyO, hwd.KCancel) // a second function with its own origin placeholder
 		add(0, hwd.TG2own, hwd.KApplyA, hwd.KCancel) // unexported function by name; own.g2 or, after Pkg, hw.g2
 		a = append(a, hwd.Op{B: 0, K: hwd.KPkg})
 		a = append(a, hwd.Op{B: 0, T: hwd.TF0, K: hwd.KApplyA, Kept: true}, hwd.Op{B: 0, T: hwd.TM, K: hwd.KApplyA, Kept: true})
@@ -45,7 +45,7 @@ func alphabet(thorough bool) []hwd.Op {
 		a = append(a, hwd.Op{B: b, K: hwd.KReset})
 	}
 	add(0, hwd.TLm, hwd.KApplyA, hwd.KReturn, hwd.KCancel)
-	add(1, hwd.TF1, hwd.KApplyA, hwd.KCancel)
+	add(1, hwd.TF1, hwd.KApplyA, hwd.KApplyO, hwd.KCancel)
 	add(0, hwd.TG2own, hwd.KApplyA, hwd.KReturn, hwd.KCancel)
 	a = append(a, hwd.Op{B: 0, K: hwd.KPkg})
 	a = append(a, hwd.Op{B: 0, T: hwd.TF0, K: hwd.KApplyA, Kept: true}, hwd.Op{B: 0, T: hwd.TM, K: hwd.KApplyA, Kept: true}, hwd.Op{B: 1, T: hwd.TF0, K: hwd.KApplyA, Kept: true})
@@ -62,7 +62,7 @@ func check(w *hwd.World, m *hwd.Model, hist []hwd.Op) (fail string, judged, unju
 		}
 	}
 	if m.OriginOn {
-		allowed = append(allowed, hwd.PlaceholderRange())
+		allowed = append(allowed, hwd.PlaceholderRanges()...)
 	}
 	judged++
 	if bad := vk.OutsideAllowed(hwd.Img.Diff(), allowed); len(bad) > 0 {
